@@ -28,6 +28,8 @@ enum Q {
     G(Vec<u64>),
     M(Vec<usize>, Vec<(u64, u64)>),
     S,
+    /// smoothing over a proper prefix of the order (a second width in the same builder)
+    T(usize),
     C(usize, bool),
 }
 
@@ -46,6 +48,7 @@ impl Q {
                 w.iter().map(|(l, h)| format!("{}.{}", l, h)).collect::<Vec<_>>().join("_")
             ),
             Q::S => "S".to_string(),
+            Q::T(k) => format!("T{}", k),
             Q::C(v, b) => format!("C{}.{}", v, *b as u8),
         }
     }
@@ -101,6 +104,7 @@ fn answer<'a>(b: &'a RobddBuilder<'a, AllIteTable<BddPtr<'a>>>, d: BddPtr<'a>, n
             format!("{}:{}", f64_exact(v), s)
         }
         Q::S => bdd_raw_string(b.smooth(d, n)),
+        Q::T(k) => bdd_raw_string(b.smooth(d, *k)),
         Q::C(v, val) => bdd_raw_string(b.condition(d, VarLabel::new_usize(*v), *val)),
     }
 }
@@ -454,6 +458,7 @@ pub fn query_line(rng: &mut Rng, maxvars: usize, maxops: usize) -> String {
         .map(|_| {
             let i = if nderived > 0 && rng.chance(1, 2) { DERIVED + rng.below(nderived as u64) as usize } else { *rng.pick(&big) };
             let q = match rng.below(9) {
+                8 if n >= 2 && rng.coin() => Q::T(1 + rng.below((n - 1) as u64) as usize),
                 8 => Q::G((0..n).map(|_| 2 + rng.below(1000)).collect()),
                 0 => Q::W((0..n).map(|_| (rng.below(5) as u128, rng.below(5) as u128)).collect()),
                 1 => Q::R((0..n).map(|_| rng.below(9)).collect()),
